@@ -1,4 +1,5 @@
 import HapVerif.Model.C09
+import HapVerif.Model.C09Ctx
 import HapVerif.Drv.Common
 namespace HapVerif.C09
 open HapVerif.Drv
@@ -10,6 +11,7 @@ open HapVerif.Drv
     C09 get   <getter> <bits4> <dns> <value>            => o:<ns>:<name> | file | denied | invalid
     C09 dyn   <static> <crt><ca><pw><svc>               => <bits4>
     C09 site  <site> <src> <form> <static+bits4> <fu>   => t=<own|foreign|file|none>;r=<0|1>;u=<0|1>;b=<bits4> | PANIC
+    C09 carrier <route> <site> <form> <static+bits4> <fu> => (as site)
 
   bits4 = crt ca passwd services.  dyn tokens: a allow, d deny, - absent, A "Allow", U "ALLOW",
   x "yes", t "true", e "", s " allow", w "allowed".
@@ -28,6 +30,15 @@ open HapVerif.Drv
   fu: 0 first reconciliation; 1 namespace b converted its own ingress first (its userlist / backend /
   files exist), a is added by a partial sync; 2 a first reconciliation ran with all four keys = allow,
   then the ConfigMap changed to <bits4> (full sync).
+
+  carrier: the annotated object is a Service of namespace a REACHED THROUGH A REFERENCE (harness
+  c09xns/carrier_test.go); route: db = `--default-backend-service=a/svc` (referencing source: the command
+  line, empty namespace), authsvc = `auth-url: svc://a/authsvc:8080/auth` on Ingress c/ing (namespace c),
+  gw = HTTPRoute a/rt backendRefs -> a/svc; site: securecrt secureca authsecret authurl; form: the forms
+  of site + ref / secref (= c/<name>, secret://c/<name>: the REFERENCER's namespace); the foreign objects
+  are those of namespaces b and c; fu = 1: namespace b converted first, then the Service a/svc appears
+  (db, partial sync), Ingress c/ing is added (authsvc, partial sync), the Gateway is added (gw, full sync).
+  A `site` line is the same model on the routes direct (src = ing) and ingress (src = svc).
 -/
 
 def hexVal (c : Char) : Option Nat :=
@@ -127,6 +138,7 @@ def parseSite : String → Option SiteTok
 
 def nsA : Str := ['a']
 def nsB : Str := ['b']
+def nsC : Str := ['c']
 
 def kindTok : Kind → Str
   | .crt => "crt".toList | .ca => "ca".toList | .pw => "pw".toList | .svc => "authsvc".toList
@@ -142,6 +154,9 @@ def formValue (k : Kind) (form : String) : Option Str :=
   | "nsown" => if k = .crt then some n else none
   | "own" => some (nsA ++ ['/'] ++ n)
   | "other" => some (nsB ++ ['/'] ++ n)
+  -- carrier lines: the namespace of the object that REFERENCES the carrier
+  | "ref" => some (nsC ++ ['/'] ++ n)
+  | "secref" => if k = .svc then none else some ("secret://c/".toList ++ n)
   | "file" => if k = .svc then none else some ("file:///F/local-".toList ++ n)
   | "fileb" => if k = .svc || k = .pw then none else some ("file:///D/b_".toList ++ n)
   | "secn" => if k = .svc then none else some ("secret://".toList ++ n)
@@ -159,7 +174,7 @@ ingress was converted before (`fu = 1`); a local path carries no namespace, so n
 (known finding, labels `…-file`). -/
 def targetOf (form fu : String) (r : Res) : String :=
   match r with
-  | .obj ns _ => if ns = nsA then "own" else if ns = nsB then "foreign" else "none"
+  | .obj ns _ => if ns = nsA then "own" else if ns = nsB || ns = nsC then "foreign" else "none"
   | .file _ =>
     if form = "fileb" then (if fu = "1" then "foreign" else "none") else "file"
   | _ => "none"
@@ -226,6 +241,53 @@ def showOAuth (bits : Bits) (fromIng : Bool) : OAuthOut → String
   | .deny => "t=none;d=1"
   | .proxy p _ => "t=" ++ (if p.ns = nsA then "own:" else "foreign:") ++ String.ofList p.name ++ ";d=0"
 
+/-- how the harness reaches the carrier: route, namespace of the referencing source, carrier name -/
+def parseRoute : String → Option (Route × Str × Str)
+  | "db" => some (.defaultBackend, [], "svc".toList)
+  | "authsvc" => some (.authURL, nsC, "authsvc".toList)
+  | "gw" => some (.gateway, nsA, "svc".toList)
+  | _ => none
+
+/-- one reference site on a carrier of namespace a reached through `route` by a source of namespace
+`refNs`: the model's prediction (`carrierUses` / `carrierReads`) and the Spec on the implementation's output -/
+def siteLine (st : SiteTok) (route : Route) (refNs name : Str) (form set fu impl : String) : Verdict :=
+    match set.toList with
+    | [s, c1, c2, c3, c4] =>
+      let static := s == '1'
+      let tok (c : Char) : Str := if c == '1' then sAllow else "deny".toList
+      let cm : GlobalCM := { crt := tok c1, ca := tok c2, pw := tok c3, svc := tok c4 }
+      let cur := buildGlobalDynamic static cm
+      let allAllow : GlobalCM := { crt := sAllow, ca := sAllow, pw := sAllow, svc := sAllow }
+      -- fu: 0 = first reconciliation, 1 = namespace b was converted before with the same settings,
+      -- 2 = a previous reconciliation ran with every key = allow, then the ConfigMap changed
+      -- (an unchanged ConfigMap does not ask for a second conversion: the first one stands)
+      -- fu = 3: like 2, the ConfigMap is emptied instead (every key absent = deny; the harness only uses it
+      -- with an all-deny setting, so `cm` already is what an empty ConfigMap means)
+      let fu := if fu == "3" then "2" else fu
+      let noResync := fu == "2" && cm == allAllow
+      let prev := if fu == "0" then initialBits
+                  else if fu == "2" then buildGlobalDynamic static allAllow else cur
+      let bits := bitsSeenBy st.site prev cur
+      let k := st.site.kind
+      match formValue k form with
+      | none => bad "site-form"
+      | some value =>
+        let ex := if fu == "1" then exFU else Existing.none
+        let uses := carrierUses st.site bits ex route refNs nsA name value
+        let reads := carrierReads st.site bits ex route refNs nsA name value
+        let t := match uses with | some u => targetOf form fu u | none => "none"
+        let r := !noResync && (match reads with | some (.obj ns _) => ns != nsA | _ => false)
+        let m := "t=" ++ t ++ ";r=" ++ bit r ++ ";u=" ++ bit (t == "foreign") ++ ";b=" ++ showBits cur
+        let allowed := specAllowed static cm k
+        -- the oracle looks at the IMPLEMENTATION's output only
+        let fields := impl.splitOn ";"
+        let has (x : String) := fields.contains x
+        { model := m, agree := m = impl,
+          oracle := oracle (if form == "fileb" && impl != "PANIC" then st.label ++ "-file" else st.label) k allowed
+            (has "r=1") (has "u=1" || has "t=foreign") (impl == "PANIC"),
+          trivial := form == "n" || form == "own" }
+    | _ => bad "site-parse"
+
 def handle (args : List String) (impl : String) : Verdict :=
   match args with
   | ["oauth", src, im, pfx, decls, set, _fu] =>
@@ -241,8 +303,9 @@ def handle (args : List String) (impl : String) : Verdict :=
         let cur := buildGlobalDynamic (s == '1') cm
         -- the three histories (first reconciliation / namespace b converted first, a added by a
         -- partial sync / every key allowed, then the ConfigMap changed) end in the same table
-        let o1 := buildOAuth (oauthTable ds true) nsA cfg
-        let o0 := buildOAuth (oauthTable ds false) nsA cfg
+        -- findBackend visits the hosts in the order of the sorted hostnames (58bb97c): `sortHosts`
+        let o1 := buildOAuth (sortHosts (oauthTable ds true)) nsA cfg
+        let o0 := buildOAuth (sortHosts (oauthTable ds false)) nsA cfg
         let m := showOAuth cur (src == "ing") o1 ++ ";u=" ++ bit (decide (o1 ≠ o0)) ++ ";b=" ++ showBits cur
         let fields := impl.splitOn ";"
         let has (x : String) := fields.contains x
@@ -295,43 +358,15 @@ def handle (args : List String) (impl : String) : Verdict :=
         oracle := if impl = "PANIC" then some "panic:global-config" else none }
     | _, _ => bad "dyn-parse"
   | ["site", site, src, form, set, fu] =>
-    match parseSite site, set.toList with
-    | some st, [s, c1, c2, c3, c4] =>
-      let static := s == '1'
-      let tok (c : Char) : Str := if c == '1' then sAllow else "deny".toList
-      let cm : GlobalCM := { crt := tok c1, ca := tok c2, pw := tok c3, svc := tok c4 }
-      let cur := buildGlobalDynamic static cm
-      let allAllow : GlobalCM := { crt := sAllow, ca := sAllow, pw := sAllow, svc := sAllow }
-      -- fu: 0 = first reconciliation, 1 = namespace b was converted before with the same settings,
-      -- 2 = a previous reconciliation ran with every key = allow, then the ConfigMap changed
-      -- (an unchanged ConfigMap does not ask for a second conversion: the first one stands)
-      -- fu = 3: like 2, the ConfigMap is emptied instead (every key absent = deny; the harness only uses it
-      -- with an all-deny setting, so `cm` already is what an empty ConfigMap means)
-      let fu := if fu == "3" then "2" else fu
-      let noResync := fu == "2" && cm == allAllow
-      let prev := if fu == "0" then initialBits
-                  else if fu == "2" then buildGlobalDynamic static allAllow else cur
-      let bits := bitsSeenBy st.site prev cur
-      let k := st.site.kind
-      match formValue k form with
-      | none => bad "site-form"
-      | some value =>
-        let ex := if fu == "1" then exFU else Existing.none
-        let fromIng := src == "ing"
-        let uses := siteUses st.site bits ex fromIng nsA value
-        let reads := siteReads st.site bits ex fromIng nsA value
-        let t := targetOf form fu uses
-        let r := !noResync && (match reads with | some (.obj ns _) => ns == nsB | _ => false)
-        let m := "t=" ++ t ++ ";r=" ++ bit r ++ ";u=" ++ bit (t == "foreign") ++ ";b=" ++ showBits cur
-        let allowed := specAllowed static cm k
-        -- the oracle looks at the IMPLEMENTATION's output only
-        let fields := impl.splitOn ";"
-        let has (x : String) := fields.contains x
-        { model := m, agree := m = impl,
-          oracle := oracle (if form == "fileb" && impl != "PANIC" then st.label ++ "-file" else st.label) k allowed
-            (has "r=1") (has "u=1" || has "t=foreign") (impl == "PANIC"),
-          trivial := form == "n" || form == "own" }
-    | _, _ => bad "site-parse"
+    match parseSite site with
+    | some st => siteLine st (if src == "ing" then .direct else .ingress) nsA "svc".toList form set fu impl
+    | none => bad "site-parse"
+  | ["carrier", route, site, form, set, fu] =>
+    match parseRoute route, parseSite site with
+    | some (rt, refNs, name), some st =>
+      if st.site.onService && !st.tcp && site != "authurlfe" then siteLine st rt refNs name form set fu impl
+      else bad "carrier-site"
+    | _, _ => bad "carrier-parse"
   | _ => bad "C09"
 
 end HapVerif.C09
